@@ -79,7 +79,12 @@ def gen(seed: int, tier: str) -> dict[str, Any]:
     if rng.random() < 0.5:
         policy = {"dup": rng.choice([0.0, 0.15]), "delay": rng.choice([0.0, 0.2]), "corrupt": rng.choice([0.0, 0.1]),
                   "drop": rng.choice([0.0, 0.05]), "delays": [0.002, 0.02, 0.2], "dup_delays": [0.0005, 0.05, 0.3]}
-    return {"seed": seed, "tier": "S", "config": {"batch": 1}, "senders": senders, "ops": ops, "fault_policy": policy}
+    cfg = {"batch": 1}
+    if rng.random() < 0.2:
+        # the receiver's Data Secure is set up from a Keyring object, and in the middle of the run a second XKNX object of the
+        # same process is set up from that same Keyring object
+        cfg["shared_keyring"] = round(rng.uniform(0.1, t + 0.3), 6)
+    return {"seed": seed, "tier": "S", "config": cfg, "senders": senders, "ops": ops, "fault_policy": policy}
 
 
 def run(plan: dict[str, Any]) -> dict[str, Any]:
@@ -100,6 +105,19 @@ def run(plan: dict[str, Any]) -> dict[str, Any]:
     for i, s in enumerate(senders):
         if s.get("kr"):
             nodes[i].restart_data_secure()       # first set-up from the keyring
+    shared_kr = None
+    keep_alive: list[Any] = []
+    if plan["config"].get("shared_keyring") is not None:
+        # a real Keyring object (its lists filled in memory instead of from a key file): every sender is known with number 0
+        from types import SimpleNamespace
+        from xknx.secure.keyring import Keyring
+        from xknx.telegram import IndividualAddress
+        shared_kr = Keyring()
+        shared_kr.group_addresses = [SimpleNamespace(address=GroupAddress(g), decrypted_key=k) for g, k in keys.items()]
+        shared_kr.interfaces = [SimpleNamespace(group_addresses={GroupAddress(g): [IndividualAddress(a) for a in known] for g in keys})]
+        shared_kr.devices = []
+        rx.xknx.cemi_handler.data_secure_init(shared_kr)
+        R.extra_faults["receiver_set_up_from_a_keyring_object"] += 1
     restarts: dict[int, list[int]] = {}
     ref_next = {i: s["start"] for i, s in enumerate(senders) if s["kind"] == "ref"}
     bus_log: list[dict[str, Any]] = []      # every frame handed to the receiver, in delivery order, with ground truth
@@ -156,6 +174,18 @@ def run(plan: dict[str, Any]) -> dict[str, Any]:
                     return None
                 n.stub.pick = pick
         t0 = loop.time()
+        if shared_kr is not None:
+            def second_object():
+                # another XKNX object of the process is configured from the same Keyring object (KNXIPInterface.start() does
+                # this on every start); nothing of it may reach the receiver's replay table
+                rx2 = D.Node(R, "rx2", W.ia(5, 0, 77), keys, dict(known))
+                rx2.xknx.cemi_handler.data_secure_init(shared_kr)
+                keep_alive.append(rx2)
+                R.extra_faults["second_xknx_object_set_up_from_the_same_keyring_object"] += 1
+                # ... and the recordings are played to the receiver once more
+                for fr in list(frames_sent)[-6:]:
+                    to_bus(fr, {"kind": "replay"})
+            loop.at(t0 + plan["config"]["shared_keyring"], second_object, label="op")
 
         def do(op):
             si = op["s"]
